@@ -299,7 +299,76 @@ func generateKeysLean(repo string) ([]byte, error) {
 	}
 	b.WriteString("]\n\n")
 	fmt.Fprintf(&b, "def depthGroupOrder : List String := %s\n\n", leanStrList(order))
+	// GenLocation (flatten_name.go): `switch { case parts.P(): return "lit" … default: return "lit" }`
+	b.WriteString("/-- `GenLocation(parts)` of flatten_name.go -/\n")
+	fmt.Fprintf(&b, "def genLocation (s : List String) : String := %s\n\n", g.genLocation(repo))
 	fmt.Fprintf(&b, "def untranslated : List String := %s\n\n", leanStrList(g.bad))
 	b.WriteString("end Generated.Keys\n")
 	return b.Bytes(), nil
+}
+
+// genLocation translates the body of GenLocation: a tag-less switch whose cases test one SplitKey predicate each and return a
+// string literal.  Anything else becomes a string no comparison with the model survives.
+func (g *keysGen) genLocation(repo string) string {
+	fail := func(why string) string {
+		g.bad = append(g.bad, "GenLocation: "+why)
+		return strconv.Quote("<untranslated: " + why + ">")
+	}
+	f, err := parser.ParseFile(g.fset, filepath.Join(repo, "flatten_name.go"), nil, 0)
+	if err != nil {
+		return fail(err.Error())
+	}
+	for _, d := range f.Decls {
+		fd, ok := d.(*ast.FuncDecl)
+		if !ok || fd.Name.Name != "GenLocation" || fd.Body == nil || fd.Recv != nil {
+			continue
+		}
+		if len(fd.Body.List) != 1 || len(fd.Type.Params.List) != 1 || len(fd.Type.Params.List[0].Names) != 1 {
+			return fail(exprSrc(g.fset, fd.Body))
+		}
+		param := fd.Type.Params.List[0].Names[0].Name
+		sw, ok := fd.Body.List[0].(*ast.SwitchStmt)
+		if !ok || sw.Tag != nil || sw.Init != nil {
+			return fail(exprSrc(g.fset, fd.Body))
+		}
+		out, deflt, haveDefault := "", "", false
+		for _, st := range sw.Body.List {
+			cc, ok := st.(*ast.CaseClause)
+			if !ok || len(cc.Body) != 1 {
+				return fail(exprSrc(g.fset, fd.Body))
+			}
+			ret, ok := cc.Body[0].(*ast.ReturnStmt)
+			if !ok || len(ret.Results) != 1 {
+				return fail(exprSrc(g.fset, fd.Body))
+			}
+			lit, ok := g.strValue(ret.Results[0])
+			if !ok {
+				return fail(exprSrc(g.fset, fd.Body))
+			}
+			if cc.List == nil {
+				deflt, haveDefault = strconv.Quote(lit), true
+				continue
+			}
+			if len(cc.List) != 1 || haveDefault {
+				return fail(exprSrc(g.fset, fd.Body))
+			}
+			call, ok := cc.List[0].(*ast.CallExpr)
+			if !ok || len(call.Args) != 0 {
+				return fail(exprSrc(g.fset, fd.Body))
+			}
+			sel, ok := call.Fun.(*ast.SelectorExpr)
+			if !ok {
+				return fail(exprSrc(g.fset, fd.Body))
+			}
+			if id, ok := sel.X.(*ast.Ident); !ok || id.Name != param {
+				return fail(exprSrc(g.fset, fd.Body))
+			}
+			out += fmt.Sprintf("if %s s then %s else ", lowerFirst(sel.Sel.Name), strconv.Quote(lit))
+		}
+		if !haveDefault {
+			return fail("no default case")
+		}
+		return out + deflt
+	}
+	return fail("function not found")
 }
